@@ -152,6 +152,18 @@ BUILT = {
         note='Trusted: TLC, the 40-line ModQ interpreter. Bounded: orders <= 10 (quick) / 20; Qbfs and 2D-Q n <= 5, m <= 3 (quick) / n <= 9, m <= 5; '
              'rational points only; orders beyond the bound are not examined.',
         technique='TLA+ specs (OrthoPoly.tla closed-form definitions + exact-moment orthogonality, QPoly.tla exact Gram-Schmidt) checked by TLC; exact values replayed into prysm.polynomials'),
+    'C09': dict(
+        spec='OrthoPoly.tla, PolyDefs.tla, QPoly.tla, Clenshaw.tla, ModQ.tla',
+        text='Derivatives are the FORMAL derivatives of the closed-form coefficient lists of PolyDefs.tla (exact ModQ arithmetic), so "derivative of the value '
+             'routine" is literal. Clenshaw.tla is the derivative-table recurrence al[jj][n] as an algorithm machine; TLC checks al[jj][0] = jj-th formal '
+             'derivative of the explicit sum for every coefficient vector (dense, sparse, length 1), parameter pair, rational point and j <= 3, and the '
+             'pinned seed (j instead of jj) must violate it. QPoly.tla carries the Gram-Schmidt Forbes polynomials with their phi-basis coefficients, which '
+             'gives derivatives of any order in x = u^2. Replayed: every *_der function and zernike_nm_der (radial and azimuthal, both signs of m, norm '
+             'on/off) against the exact derivative values; the documented entries of jacobi_sum_clenshaw_der, clenshaw_qbfs_der and clenshaw_q2d_der '
+             'tables for j = 1..3; compute_z_zprime_Qbfs / _Qcon / _Q2d (z, dz/du, dz/dtheta) against sums formed from the exact per-mode values.',
+        note='Trusted: TLC, ModQ interpreter. Bounded: orders <= 8 (quick) / 16, Forbes polynomials n <= 5, m <= 3 (quick) / n <= 9, m <= 5, derivative orders <= 3; '
+             'only the documented table entries are compared. The ray-tracing surface helpers are covered through C19.',
+        technique='TLA+ specs (formal derivatives in PolyDefs/OrthoPoly/QPoly, Clenshaw.tla derivative-recurrence machine) checked by TLC; exact derivative values replayed into prysm'),
 }
 
 NOT_BUILT_REASON = 'not built yet in this round (specification planned in DESIGN.md section 4; never decided by another technique)'
